@@ -72,6 +72,7 @@ type Process struct {
 	isMain              bool
 	extraArgs           []string
 	isStopped           atomic.Bool
+	isEnded             atomic.Bool
 	stdin               io.WriteCloser
 	passProvided        bool
 	isTuiEnabled        bool
@@ -404,7 +405,7 @@ func (p *Process) stopProcess(cancelReadinessFuncs bool) error {
 		log.Debug().Msgf("process %s is in state %s not shutting down", p.getName(), p.getStatusName())
 		// prevent pending process from running
 		if p.isOneOfStates(types.ProcessStatePending) {
-			p.onProcessEnd(types.ProcessStateTerminating)
+			p.onProcessEnd(types.ProcessStateCompleted)
 		}
 		return nil
 	}
@@ -493,6 +494,12 @@ func (p *Process) onProcessStart() {
 }
 
 func (p *Process) onProcessEnd(state string) {
+	// an instance ends exactly once: a process stopped before launch is ended
+	// by the stop request, and must not touch the (shared) state again when
+	// its goroutine eventually wakes up - a newer instance may own it by then
+	if !p.isEnded.CompareAndSwap(false, true) {
+		return
+	}
 	if isStringDefined(p.procConf.LogLocation) {
 		p.logger.Close()
 	}
